@@ -170,6 +170,15 @@ func (m DocComposite) deleteWithPrefix(ctx context.Context, key keys.DataStoreKe
 		return err
 	}
 
+	// The entries are collected first and moved once the iterator is closed: writing to a store
+	// while one of its iterators is open is not supported by every store (the in-memory store
+	// used for time-travel reads blocks forever).
+	type entry struct {
+		key   keys.DataStoreKey
+		value []byte
+	}
+	entries := make([]entry, 0)
+
 	for {
 		hasNext, err := iter.Next()
 		if err != nil {
@@ -184,23 +193,35 @@ func (m DocComposite) deleteWithPrefix(ctx context.Context, key keys.DataStoreKe
 			return errors.Join(err, iter.Close())
 		}
 
+		e := entry{key: dsKey}
 		if dsKey.InstanceType == keys.ValueKey {
 			value, err := iter.Value()
 			if err != nil {
 				return errors.Join(err, iter.Close())
 			}
+			e.value = append([]byte{}, value...)
+		}
+		entries = append(entries, e)
+	}
 
-			err = m.store.Set(ctx, dsKey.WithDeletedFlag().Bytes(), value)
+	err = iter.Close()
+	if err != nil {
+		return err
+	}
+
+	for _, e := range entries {
+		if e.key.InstanceType == keys.ValueKey {
+			err = m.store.Set(ctx, e.key.WithDeletedFlag().Bytes(), e.value)
 			if err != nil {
-				return errors.Join(err, iter.Close())
+				return err
 			}
 		}
 
-		err = m.store.Delete(ctx, dsKey.Bytes())
+		err = m.store.Delete(ctx, e.key.Bytes())
 		if err != nil {
-			return errors.Join(err, iter.Close())
+			return err
 		}
 	}
 
-	return iter.Close()
+	return nil
 }
